@@ -6,16 +6,18 @@
 
    What is proved here: the time side of the property (frame grid, not before the line, inside the line's
    transmission window, frames per word), the channel filter and the single action of doubled control codes.
+   Of the display side only the protocol skeleton is proved, on the model: what is loaded in pop-on style is not
+   visible before the EOC; EOC starts the buffered caption and ends the displayed one at its stamp; EDM ends the
+   displayed caption one frame later; after a carriage return a roll-up caption has at most `depth` rows.
    What is NOT proved: the simulation `rows_of_doc (to_model ..) f = screen .. f` (C08_popon and its roll-up /
-   paint-on analogues, DESIGN section 5): it is false at full strength of the faithful model (Findings/C08.v, thirteen
-   recorded findings) and is compared by the correspondence run only (harness/c08.py, oracle 2).  The intended
-   statement is
-     forall ws in PopOnGrammar, no trigger of Spec/Cea608Screen.v fires on ws ->
-       forall f, S_word ws (to_model ws) = None
+   paint-on analogues, DESIGN section 5) - which characters sit on which rows with which attributes.  It is false at
+   full strength of the faithful model (Findings/C08.v, fourteen recorded findings) and is compared by the
+   correspondence run only (harness/c08.py, oracle 2).  The intended statement is
+     forall ws in PopOnGrammar, no trigger of Spec/Cea608Screen.v fires on ws -> S_word ws df (to_model ws) = None
    and is left unproved. *)
 From Coq Require Import QArith.
 From TT Require Import Base.Prelude Base.SccTypes Base.SccDoc Model.SccWord Model.TimeCode Model.SccReader.
-From TT Require Import Proofs.C08.Stamps Proofs.C08.Words.
+From TT Require Import Proofs.C08.Stamps Proofs.C08.Words Proofs.C08.Protocol.
 Open Scope Z_scope.
 
 (* every time code stored in a pushed paragraph (begin, end, span begins) is the time code of one of the file's
@@ -75,7 +77,42 @@ Theorem C08_doubled_once : forall c w, c_err c = false -> is_dup c w = false -> 
   step (step c w) w = with_prev (step c w) None /\ c_tc (step (step c w) w) = c_tc (step c w).
 Proof. exact doubled_once. Qed.
 
+(* pop-on captions appear at the flip: in pop-on style the words that load the non-displayed memory (PACs, attribute and
+   mid-row codes, characters, RCL, ENM, tab offsets, backspace) leave the displayed caption, the paragraphs written so
+   far and the regions untouched ... *)
+Theorem C08_popon_invisible_until_eoc : forall c w, c_style c = sPopOn -> loads_buffer w = true -> visible (step c w) = visible c.
+Proof. exact popon_invisible. Qed.
+(* ... EOC makes the buffered caption the displayed one, beginning at the EOC's stamp, and writes the caption displayed
+   until then with that stamp as its end ("vanishes when replaced") ... *)
+Theorem C08_popon_eoc_flip : forall c w, c_err c = false -> is_dup c w = false -> ctl w kEOC ->
+  let t1 := tc_next (c_tc c) in
+  (exists b, c_act (step c w) = Some b /\ p_begin b = Some t1 /\ p_lines b = p_lines (c_buf c)) /\
+  match c_act c with
+  | None => c_out (step c w) = c_out c
+  | Some a => if para_is_empty a then c_out (step c w) = c_out c
+              else exists o, c_out (step c w) = o :: c_out c /\ o_begin o = p_begin a /\ o_end o = Some t1
+  end.
+Proof. exact popon_eoc. Qed.
+(* ... and EDM leaves nothing displayed, writing the displayed caption with the frame after its stamp as exclusive end *)
+Theorem C08_edm_erases : forall c w, c_err c = false -> is_dup c w = false -> ctl w kEDM ->
+  let t1 := tc_next (c_tc c) in
+  c_act (step c w) = None /\
+  match c_act c with
+  | None => c_out (step c w) = c_out c
+  | Some a => if para_is_empty a then c_out (step c w) = c_out c
+              else exists o, c_out (step c w) = o :: c_out c /\ o_begin o = p_begin a /\ o_end o = Some (tc_next t1)
+  end.
+Proof. exact edm_erases. Qed.
+(* roll-up shows at most the selected number of rows: after a carriage return the new displayed caption holds at most
+   `depth` rows (the rows kept from the previous one plus the base row) *)
+Theorem C08_rollup_depth : forall c w a, c_err c = false -> is_dup c w = false -> ctl w kCR -> c_act c = Some a -> p_style a = sRollUp ->
+  exists a', c_act (step c w) = Some a' /\ zlen (p_lines a') <= Z.max (c_depth c) 1.
+Proof. exact rollup_depth. Qed.
+
 (* non-vacuity: the hypotheses are met by concrete, non-trivial values *)
+Example C08_example_ctl : ctl 5167 kEOC /\ ctl 37932 kEDM /\ ctl 5165 kCR /\ loads_buffer 5232 = true /\ loads_buffer 16706 = true /\
+                          loads_buffer 5167 = false.
+Proof. vm_compute. repeat split. Qed.
 Example C08_example_block : block_ok 1 [7200; 16706; 0; 7212] = true /\ ch1_code 5152 = true /\ ch1_code 7200 = false.
 Proof. vm_compute. repeat split. Qed.
 Example C08_example_clean : run_clean (ctx_init 0) [5152; 5166; 5232; 16706; 5167] = true /\
@@ -85,4 +122,5 @@ Proof. vm_compute. split; reflexivity. Qed.
 Print Assumptions C08_stamps.  Print Assumptions C08_times_on_line_grid.  Print Assumptions C08_times_on_grid.
 Print Assumptions C08_not_before_line.  Print Assumptions C08_frames_per_word.  Print Assumptions C08_within_word_window_partial.
 Print Assumptions C08_stamp_never_late.  Print Assumptions C08_channel_block.  Print Assumptions C08_channel_filter_partial.
-Print Assumptions C08_doubled_once.
+Print Assumptions C08_doubled_once.  Print Assumptions C08_popon_invisible_until_eoc.  Print Assumptions C08_popon_eoc_flip.
+Print Assumptions C08_edm_erases.  Print Assumptions C08_rollup_depth.
